@@ -103,15 +103,24 @@ def sites(path, src):
     return [(path,) + s for s in out]
 
 def sh(cmd, cwd=None, timeout=1800, env=None):
-    p = subprocess.run(cmd, cwd=cwd, stdout=subprocess.PIPE, stderr=subprocess.STDOUT, timeout=timeout, env=env, shell=isinstance(cmd, str))
-    return p.returncode, p.stdout.decode('utf-8', 'replace')
+    # own process group, so that a mutant that loops for ever is killed together with what it started
+    p = subprocess.Popen(cmd, cwd=cwd, stdout=subprocess.PIPE, stderr=subprocess.STDOUT, env=env, shell=isinstance(cmd, str), start_new_session=True)
+    try:
+        out, _ = p.communicate(timeout=timeout)
+        return p.returncode, out.decode('utf-8', 'replace')
+    except subprocess.TimeoutExpired:
+        import signal
+        try: os.killpg(p.pid, signal.SIGKILL)
+        except OSError: pass
+        p.wait()
+        return 124, 'TIMEOUT'
 
 def suite(root):
     sh('make clean', cwd=root)
     rc, out = sh('make -j8', cwd=root, timeout=600)
     if rc != 0:
         return None
-    rc, out = sh('make check', cwd=root, timeout=900)
+    rc, out = sh('make check', cwd=root, timeout=240)
     lines = [l for l in out.splitlines() if re.match(r'^(PASS|FAIL)|pass *=|.*\.bin', l)]
     return 'exit=%d\n' % rc + '\n'.join(lines)
 
